@@ -143,10 +143,16 @@ CLAIMS.update({
              "several lines): front_end (render L p) = p for the Gallina front end (denter transliterated from DenterHelper, "
              "token parser for PFDLParser.g4 building the model the way pfdl_tree_visitor.py does, precedence-climbing "
              "expression parser with the level table REGENERATED from PFDLParser.py on every run); C12_denter_layout_independent; "
-             "C12_expr_roundtrip_any_table. The characters-to-lexemes level, ANTLR's ATN and error recovery are not modelled: the "
-             "illegal-character clause is established on the code by correspondence only (all single illegal-character insertions "
-             "at sampled positions). Correspondence: parse_string vs the generating AST field by field under 20 layouts per "
-             "program, real lexer token stream vs Gallina denter, Gallina front_end vs the code incl. mutated texts. D13 (illegal "
+             "C12_expr_roundtrip_any_table. The characters-to-lexemes level is modelled by Front/CharLexer.v (rule table of "
+             "PFDLLexer.g4 with longest match, rule order, modes; tied to the regenerated rule table by Gen/ObligationsCharLexer.v): "
+             "C12_lex_render (lexing the characters of a printed text gives its line tokens), C12_roundtrip_chars (front end on "
+             "CHARACTERS = the program, under the executable guards text_style_ok and nonempty_program; refuted without the "
+             "latter), C12_lex_rejects_illegal (EVERY text with a character outside the language at a code position is a lexer "
+             "error, hence a syntax error), C12_chars_layout_insensitive. Not modelled: ANTLR's serialized ATN, adaptive "
+             "prediction and error recovery, Unicode decoding (bytes >= 128 are single illegal characters), JSON escape decoding. "
+             "Correspondence: parse_string vs the generating AST field by field under 20 layouts per "
+             "program, real lexer token stream vs Gallina denter, Gallina character lexer vs the real ANTLR lexer (rule name, text, error offset; rendered, "
+             "mutated and random texts), Gallina front_end vs the code incl. mutated texts. D13 (illegal "
              "characters dropped) was found and fixed; D14 (precedence split) is a KNOWN-FINDING.",
         technique="Coq proof (round trip by induction over programs and layouts; regenerated grammar tables with reflexivity "
                   "obligations) + differential correspondence on generated texts and layouts",
@@ -275,6 +281,13 @@ CLAIMS["C13"]["text"] = CLAIMS["C13"]["text"].replace(
     "is REFUTED on the faithful model (C13_standard_precedence_refuted: '8 / 2 * 2' is 2, not 8; '1 + 2 - 3' has another tree "
     "but the same value) - known finding D14, reported as KNOWN-FINDING. Guards are additionally evaluated inside running "
     "orders (Conditions and loops re-evaluated against current values).")
+CLAIMS["C17"]["text"] += (
+    " Attach / detach performed re-entrantly from inside an observer's update() is covered by a separate model of "
+    "Scheduler.notify (ObsDispatch.v, Properties/C17obs.v): for all observer lists and reaction functions a detached "
+    "observer receives nothing further, no attached observer is skipped, order and multiplicity are those of the list, "
+    "lifted to sequences of notifications; the loop before fix 20b97d8 (D27: an observer detaching itself made the next one "
+    "miss the entry) and the snapshot-only loop are refuted with witnesses. Tied to the code by a digest obligation on "
+    "attach / detach / notify and by the obs slice (real Scheduler, scripted re-entrant observers).")
 for _p in ("C17", "C20"):
     CLAIMS[_p]["text"] += (
         " ADDITIONALLY PROVED ON THE FAITHFUL NET MODEL (NetShape.v, Properties/C20net.v), i.e. on the transliteration of "
